@@ -25,31 +25,39 @@ CHECKS = {
             "modelled in Core/Py.lean; the read-back clause is demanded for weights +-1 only, as the statement says.",
             "Lean 4 proof over a hand-written model + differential correspondence + oracle"),
     "C02": ("full",
-            "Lean theorems C02.varAnd_/varOr_{count, parents_unchanged, inputs_unchanged, fresh, not_input, distinct, touched_invalid, "
-            "untouched/reproduced_is_clone, valid_is_parent_copy, isSome} + decodeAnd/decodeOr hold for every population (repeated objects "
-            "included), every decision tape and every mate/mutate pair meeting the explicit operator contract (returns what it was given, "
-            "writes nothing else); model Core/Variation.lean replays the recorded draws (IEEE branch op_choice<cxpb) and is diffed against the "
-            "real varAnd/varOr on list/array/ndarray/tree representations; the statement (snapshots, aliasing walk, fitness validity) is an oracle "
-            "on the real objects.",
-            TB + "the operator contract is an explicit hypothesis (checked on every recorded call; proved for the operator models in C09/C11); "
-            "toolbox.clone = copy.deepcopy (C16); GP node objects are immutable symbols.",
-            "Lean 4 proof over a hand-written heap model + tape-replay differential correspondence + oracle"),
+            "Lean theorems (C02.varAnd_/varOr_ count, parents_unchanged, inputs_unchanged, fresh, not_input, distinct, touched_invalid, untouched_is_clone/"
+            "reproduced_is_clone, valid_is_parent_copy, varAnd_next_le, isSome, decodeAnd_lengths, decodeOr_length) hold for every population (repeated individuals "
+            "included), every decision tape and every mate/mutate pair meeting the generalised OpContract: an operator returns objects that are its arguments or "
+            "objects it allocated itself, mate returns two different objects, it writes only those, and may do anything to their genome and fitness (in-place, "
+            "copy-and-return, swap-return, fitness-assigning and staticLimit-wrapped operators are all instances). touched_invalid speaks about the object that ends "
+            "up in the offspring list. Core/Variation.lean is replayed against deap.algorithms.varAnd/varOr on recorded runs over list/array/numpy/GP-tree/ES/"
+            "permutation individuals x plain, multi-objective and Constrained fitness with IEEE replay of the probability comparisons, and the statement is evaluated "
+            "as an oracle on the real objects (snapshots, identity, shared mutable state, empty invalid fitness).",
+            TB + "library operators meet OpContract (checked on every recorded call); clone=deepcopy (C16); Lean Float < and + equal CPython's; GP nodes are immutable "
+            "symbols; 'shares no mutable state' is oid freshness in the model and the aliasing walk on the real objects; varOr needs >= 2 individuals when cxpb > 0.",
+            "Lean 4 proof over a hand-written heap model + trace-replay correspondence + oracle"),
     "C09": ("full",
             "Lean theorems C09.{onepoint,twopoint,uniform,messy}_multiset, *_locus, *_lengths, uniform(R)_exact, es_pairs(+_multiset,_locus,_lengths), "
-            "pmx_perm, upmx_perm, ox_perm (aliased in-place model), shuffle_perm, inversion_perm(+_exact), flip_exact/complement/length, "
-            "uniform_int_bounds(+_scalar,_seq,_total), in_place1/2/_es hold for every gene list, every length and every draw inside the ranges of "
-            "randint/sample/randrange/random; model Core/CrossMut.lean is diffed against deap.tools under forced tapes (all permutation pairs n<=4 x "
-            "all draws, all cut points, all decision vectors) and recorded tapes (n<=12, list/array/numpy), statement evaluated as oracle on the real objects.",
-            TB + "CPython list/array item+slice assignment and tuple-assignment order as transcribed; random functions return values in their "
-            "documented ranges; parents are distinct objects; numpy only for element-wise operators.",
+            "pmx_perm, upmx_perm, ox_perm (aliased in-place model), shuffle_perm/shuffle_total/shuffle_raises, inversion_perm(+_exact), flip_exact/complement/length, "
+            "uniform_int_bounds(+_scalar,_seq,_total)/uniform_int_rejects/uniform_int_exact hold for every gene list, every length and every draw inside the ranges of "
+            "randint/sample/randrange/random; model Core/CrossMut.lean is diffed against deap.tools under forced tapes (all permutation pairs n<=4 x all draws, all cut "
+            "points, all decision vectors) and recorded value tapes that are agnostic of the drawing API (n<=12 plus permutations of length 257..400, list/array "
+            "b,i,q,d/numpy, bounds as int/list/tuple/range/array up to +-2^40, gene types checked for bit flip), statement evaluated as oracle on the real objects.",
+            TB + "CPython list/array item+slice assignment and tuple-assignment order as transcribed; random functions return values in their documented ranges "
+            "(uniform_int_bounds is about position<->bound alignment); parents are distinct objects; numpy only for element-wise operators; in-place/identity "
+            "(in_place1/2/_es fix the model's convention only) is established on the real objects by `is` on every case.",
             "Lean 4 proof over a hand-written model + tape-replay differential correspondence + oracle"),
     "C19": ("full",
             "Lean theorems C19.feasible_passthrough_delta/closest, delta_no_call, delta_formula(+_no_distance), delta_length, closest_calls, "
             "closest_formula, closest_length, closest_size_mismatch, never_better_delta/closest, monotone_in_distance_delta/closest hold over every "
             "linearly ordered field, every weight vector (sign 0 treated as the code does), scalar or per-objective constants and absent/scalar/vector "
             "distances, including the call log of the wrapped function; model Core/Penalty.lean is diffed against DeltaPenalty/ClosestValidPenalty on all "
-            "sign patterns for 1-4 objectives with dyadic values and args/kwargs passthrough, and on 2-4 call sequences through ONE decorator instance with changing weight vectors (decorators_stateless: the model is a pure function of its arguments, so any history dependence of the implementation is a disagreement); the statement is an oracle on the real decorators.",
-            TB + "IEEE arithmetic on the dyadic test inputs is exact (model uses Rat).",
+            "sign patterns for 1-4 objectives with dyadic values, vectors given as tuple/list/numpy.ndarray/array.array/range and scalars as int/float/numpy.float64, "
+            "feasibility values of several truthy types, args/kwargs passthrough, 2-4 call sequences through ONE decorator instance with changing weight vectors, one "
+            "decorator object decorating several functions, individuals and closest points carrying stale stored fitnesses; the statement is an oracle on the real "
+            "decorators.",
+            TB + "IEEE arithmetic on the dyadic test inputs is exact (model uses Rat); decorators_stateless / wrappers_independent are congruence facts that hold of "
+            "any Lean function - history independence of the implementation is established by the sequence streams.",
             "Lean 4 proof over a hand-written model + differential correspondence + oracle"),
     "C10": ("partial",
             "Lean theorems over the reals (C10.blend_sum/esblend_sum/sbx_sum, blend_range/esblend_range, sbx_welldefined, "
@@ -86,13 +94,17 @@ CHECKS = {
             TB + "float distances are compared with tolerance outside the exact family; nd='log' for m >= 2 objectives.",
             "Lean 4 proof over a hand-written model + differential correspondence + oracle"),
     "C06": ("full",
-            "Lean theorems (C06.k0*, length_*/refs_* for all eleven operators, best_sorted/worst_sorted, tournament_winner(+total), double_winner_size_first/fitness_first, "
-            "roulette_share(+total, length), sus_total/sus_counts (0<r<1)/sus_counts_r0 (boundary draw, F13), lexicase_tol/lexicase_pareto/epsilon_lexicase_tol/lexicase_step_total, "
-            "length_dcd/refs_dcd/dcd_twice/dcd_total) hold for every population, k and tape over exact rationals; model Core/Selection.lean is replayed against deap.tools.sel* and "
-            "emo.selTournamentDCD with the tape of their own random draws (results compared as input indices, identity by `is`), and the statement is evaluated as an oracle on the real "
-            "result incl. population snapshots.",
-            TB + "exact regime: small dyadic fitnesses, roulette/SUS draws j/1024 with S/k dyadic so r*S, S/k, start+i*distance are exact; CPython sorted/max/uniform and numpy.median as "
-            "modelled; inf crowding distance transported as 10^6; SUS count clause assumes the uniform draw is not exactly 0.0 (F13, companion theorem sus_counts_r0).",
+            "Lean theorems (C06.k0*, length_*/refs_* for all eleven operators, best_sorted/worst_sorted, tournament_winner(+total), random_total, "
+            "double_size_first_iff/double_fitness_first_iff/parsimony_rule/double_total_* (the parsimony stage: the smaller individual wins iff r < ps/2), "
+            "roulette_share(+total, length), sus_total/sus_counts (0<r<1)/sus_counts_r0 (boundary draw, F13), lexicase_tol/lexicase_pareto/epsilon_lexicase_tol/"
+            "auto_lexicase_tol/lexicase_step_total (the epsilon variants in the tolerance reading of DESIGN 6), length_dcd/refs_dcd/dcd_twice/dcd_total) hold for every "
+            "population, k and tape over exact rationals; model Core/Selection.lean is replayed against deap.tools.sel* and emo.selTournamentDCD with the tape of their "
+            "own random draws (results compared as input indices, identity by `is`), incl. near-tie fitnesses a few ulps apart, fit_attr='other', the same object listed "
+            "twice and negative values; the statement is evaluated as an oracle on the real result incl. population snapshots.",
+            TB + "exact regime: dyadic fitnesses, roulette/SUS draws j/1024 with S/k dyadic; CPython sorted/max/uniform and numpy.median as modelled; inf crowding "
+            "distance transported as 10^6; SUS count clause assumes the uniform draw is not exactly 0.0 (F13, companion theorem sus_counts_r0); 'never copies' and "
+            "'population unmodified' are structural in the model (indices into an immutable population) and checked on the real objects; randomness drawn outside the "
+            "hooked functions is detected (generator state snapshots) and reported as a correspondence break (TAPE:).",
             "Lean 4 proof over a hand-written model + tape-replay differential correspondence + oracle"),
     "C20": ("partial",
             "Lean theorems over R/Q for all dimensions, objective counts, tapes and histories: dtlz1_sum (sum f_i = (1+g)/2), dtlz2..6_norm "
@@ -158,22 +170,28 @@ CHECKS = {
             "dyadic test inputs are exact (checked per case); C compiler, extension loading, numpy.argmax/max trusted.",
             "Lean 4 proof (Mathlib measure theory) over a specification-level model + differential correspondence of two implementations + oracle"),
     "C18": ("full",
-            "Lean theorems C18.* over histories of any length: logbook and chapters are the image of the surviving records (rows_in_order, chapter_fields, "
-            "chapters_aligned, record_deep_aligned at every chapter depth, del_exact_index/slice, del_out_of_range, pop_exact_deep/del_exact_deep), select columns, "
-            "stream delivers every record at most/exactly once (pairwise different records), header_once at full strength for every history (the former known "
-            "finding F5 is repaired in /repo and modelled: headerStreamed state), header_first, pickle identity incl. the new flag, compile_spec/multi_compile_spec; "
-            "Core/Logbook.lean diffed after every op against deap.tools.Logbook (deep chapter comparison); statement evaluated as oracle with plain list semantics.",
-            TB + "text parser (rid >= 100000, header line = cell 'rid'); records with uniform chapter names at every level; column formatting not modelled; "
-            "stream_*_once need pairwise different records (equal records cannot be told apart in the text).",
+            "Lean theorems C18.* over histories of any length (record, pop, del index/slice, stream, chapter streams, header settings): logbook and chapters are the "
+            "image of the surviving records (rows_in_order, chapter_fields, chapters_aligned, record_deep_aligned at every chapter depth, del_exact_index/slice, "
+            "del_out_of_range, pop_exact_deep/del_exact_deep), select columns, stream_positional (every position delivered at most once, all exactly once after a final "
+            "stream; needs no distinctness), stream_at_most_once/stream_exactly_once (by value, for pairwise different records), header_once at full strength and "
+            "header_first (F5 repaired and modelled), compile_spec/multi_compile_spec; Core/Logbook.lean diffed after every op against deap.tools.Logbook (deep chapter "
+            "comparison); statement evaluated as oracle with plain list semantics, incl. shared dict objects, dict subclasses, records without scalars, repeated select "
+            "names, tuple-valued keys, several frozen positional arguments.",
+            TB + "text parser (rid >= 100000, header line = cell 'rid'); records with uniform chapter names at every level; column formatting not modelled; pickling "
+            "and a chapter's own exactly-once delivery are correspondence/oracle-only.",
             "Lean 4 proof over a hand-written model + differential correspondence + oracle"),
     "C03": ("full",
-            "Lean theorems (C03.truthful, evals_exact, nevals_logged, log_shape(+_gu), hof_fed, every_boundary, eaSimple/eaMuPlusLambda/eaMuCommaLambda/"
-            "eaMuPlusLambdaBest/harm/eaGenerateUpdate_correct, plus_monotone) hold for the generational machine of Core/Loops.lean for every ngen, every "
-            "selection/variation/acceptance tape, every pure evaluate and every operator pair meeting C02's OpContract, at every generation boundary; the "
-            "real loops (GA, NSGA-II, GP, gp.harm, CMA-ES and a persistent-individual ask/tell strategy) are replayed generation by generation (logbook, "
-            "evaluate calls, hall-of-fame feed, population and fitnesses at every boundary, clone/mate/mutate sequence) and the statement is evaluated as an oracle at every boundary.",
-            TB + "HARM-GP acceptance arithmetic and the CMA update are outside the model (their results are read off the trace); selectors return members of their input; "
-            "initial population = distinct objects, pre-evaluated truthfully; evaluate pure.",
+            "Lean theorems (C03.truthful, evals_exact, nevals_logged, log_shape(+_gu), hof_fed, hof_shown_evaluated(+_gu) (every individual shown to the hall of fame "
+            "carried its truthful fitness at that moment), every_boundary, eaSimple/eaMuPlusLambda/eaMuCommaLambda/eaMuPlusLambdaBest/harm/harmR/"
+            "eaGenerateUpdate_correct, plus_monotone) hold for the generational machine of Core/Loops.lean for every ngen, every selection/variation/acceptance tape, "
+            "every pure evaluate and every operator pair meeting C02's OpContract, at every generation boundary; HARM-GP's acceptance arithmetic is modelled "
+            "(harm_accept_prob_nonneg, harm_accept_prob_unit_below_cutoff, harm_hist_needs_natural; harm_accept_prob_exceeds_one shows the threshold is not clamped - "
+            "a threshold above 1 means 'always accept'). The real loops (GA, NSGA-II, GP incl. staticLimit-wrapped operators, gp.harm incl. the default natural "
+            "population, CMA-ES and a persistent-individual ask/tell strategy), with and without hall of fame, statistics and verbose output, are replayed generation "
+            "by generation and the statement is evaluated as an oracle at every boundary.",
+            TB + "the CMA update is outside the model (its results are read off the trace); selectors return members of their input; initial population = distinct "
+            "objects (the same unevaluated object listed twice is evaluated twice: outside the premise), pre-evaluated truthfully; evaluate pure; 'updated in place' and "
+            "'hall-of-fame best >= every logged fitness' are oracle-only (the latter composes hof_fed with C08).",
             "Lean 4 proof over a hand-written model + trace refinement + oracle"),
     "C07": ("full",
             "Lean theorems C07.*: SPEA2 returns exactly k distinct input objects, all non-dominated when #nd<=k, only non-dominated when #nd>=k (incl. the "
